@@ -436,3 +436,78 @@ func HC05_linkDelete() {
 	want := vfAnd(same(row["ida"], item["ida"]), same(row["opt"], item["opt"]))
 	vfAssert(got.t == want, "C05/link-delete-removes-exactly-the-rows-with-the-same-keys")
 }
+
+// HC05_linkDeleteUnique: link tables written as real source, with two or three non-nullable foreign
+// keys and an optional UNIQUE directive on one of them: the Delete statement removes exactly the rows
+// whose keys all equal those of the item (condition evaluated on symbolic rows, as in HC05_linkDelete),
+// with placeholders numbered 1..n for n arguments.
+func HC05_linkDeleteUnique() {
+	unique := vfChoice("unique", 4) // none, IdA, IdB, IdC
+	three := vfChoice("keys", 2) == 1
+	comment := ""
+	switch unique {
+	case 1:
+		comment = "// gomacro:SQL ADD UNIQUE(IdA)\n"
+	case 2:
+		comment = "// gomacro:SQL ADD UNIQUE(IdB)\n"
+	case 3:
+		if !three {
+			vfStop()
+		}
+		comment = "// gomacro:SQL ADD UNIQUE(IdC)\n"
+	}
+	third := ""
+	if three {
+		third = "\tIdC IdC\n"
+	}
+	src := "package p\n\ntype IdA int64\n\ntype IdB int64\n\ntype IdC int64\n\n" + comment +
+		"type Link struct {\n\tIdA IdA\n\tIdB IdB\n" + third + "\tNote string\n}\n\ntype A struct{ Id IdA }\n\ntype B struct{ Id IdB }\n\ntype C struct{ Id IdC }\n"
+	pkg := vfTypeCheck("example.com/mod/p", []string{"/m/p/p.go"}, []string{src}, nil)
+	ana := an.NewAnalysisFromFile(pkg, "/m/p/p.go")
+	text := skelDeclsText(Generate(ana, false))
+	i := strings.Index(text, "DELETE FROM links WHERE ")
+	vfAssert(i >= 0, "C05/link-table-has-a-delete-statement")
+	if i < 0 {
+		return
+	}
+	rest := text[i+len("DELETE FROM links WHERE "):]
+	end := strings.Index(rest, ";")
+	cond := rest[:end]
+	argText := rest[end:]
+	argText = argText[strings.Index(argText, ",")+1:]
+	argText = argText[:strings.Index(argText, ")")]
+	vfObserve("cond", cond)
+	vfObserve("args", argText)
+	keys := []string{"ida", "idb"}
+	if three {
+		keys = append(keys, "idc")
+	}
+	row, item := map[string]c05Val{}, map[string]c05Val{}
+	for _, k := range keys {
+		row[k] = c05Val{v: vfInt("row."+k, -2, 2)}
+		item[k] = c05Val{v: vfInt("item."+k, -2, 2)}
+	}
+	var args []c05Val
+	for _, a := range strings.Split(argText, ",") {
+		a = strings.TrimSpace(a)
+		v, ok := item[strings.ToLower(strings.TrimPrefix(a, "item."))]
+		vfAssert(strings.HasPrefix(a, "item.") && ok, "C05/delete-arguments-are-foreign-keys-of-the-item")
+		args = append(args, v)
+	}
+	ph := c05Placeholders(cond)
+	numbered := len(ph) == len(args)
+	for k, n := range ph {
+		numbered = numbered && n == k+1
+	}
+	vfAssert(numbered, "C05/placeholders-are-numbered-1..n-for-n-arguments")
+	if !numbered {
+		return
+	}
+	p := &c05Parser{toks: c05Tokens(cond), cols: row, args: args}
+	got := p.expr()
+	want := true
+	for _, k := range keys {
+		want = vfAnd(want, row[k].v == item[k].v)
+	}
+	vfAssert(got.t == want, "C05/link-delete-removes-exactly-the-rows-with-the-same-keys")
+}
